@@ -1,4 +1,5 @@
-import ElaVerif.Lemmas.ProposalInv
+import ElaVerif.Lemmas.ProposalOwed
+import ElaVerif.Gen.C29
 /-!
 # C29 — proposal spending stays within approved budgets  (claimed **partial**)
 
@@ -322,5 +323,108 @@ example : applyBlock wP 10 wS wGood = some (endBlock wP 10 (wGood.foldl (applyTx
     · subst h0; decide
     · have e0 : ((0 : Nat) == id) = false := by simp; omega
       simp [wGood, List.filter, isWithdraw, e0]
+
+/-! ## the counter never understates what is owed -/
+
+/-- at most one tracking per proposal in the block (the amount a tracking releases is computed on the pre-block
+    proposal; the pool's slot `CRCProposalTrackingHash` enforces this for pooled transactions). -/
+def GuardedT (txs : List Tx) : Prop := ∀ id, (txs.filter (isTrack id)).length ≤ 1
+
+theorem chkT_of_check (P : Params) (s : State) (acc : Int) (tx : Tx) (hc : check P s acc tx = none) : chkT s tx := by
+  cases tx with
+  | propose id bs => exact (checkPropose_none s acc bs hc).1
+  | track id k st =>
+    intro p0 h0
+    simp only [check, h0] at hc
+    unfold checkTrack at hc
+    split at hc
+    · cases hc
+    · rename_i hn; simpa using hn
+  | review id m a => trivial
+  | rejvotes id a => trivial
+  | withdraw id a => trivial
+  | withdraw0 id i o0 o1 => trivial
+
+/-- **Partial** (guarded): in an accepted block with at most one tracking per proposal the committee's used-amount
+    counter keeps covering everything still owed: `B + Σ owed ≤ used` is preserved (`owed` = all budgets of a live
+    proposal, the withdrawable ones of a terminated / finished proposal, nothing for a cancelled one). Missing for
+    full strength: the guard — two trackings of one proposal in one block release twice (finding
+    C29-two-trackings-one-block, replayed from the corpus). -/
+theorem C29_owed_partial (P : Params) (h : Nat) (s : State) (txs : List Tx) (s' : State) (B : Int)
+    (hinv : Inv s) (ho : B + sumOwed s.props ≤ s.used) (hgt : GuardedT txs)
+    (hb : applyBlock P h s txs = some s') : B + sumOwed s'.props ≤ s'.used := by
+  obtain ⟨hnd, hok, hused⟩ := hinv
+  unfold applyBlock at hb
+  split at hb
+  · rename_i hacc
+    cases hb
+    obtain ⟨hchk, _⟩ := acceptTxs_facts P s txs 0 (by omega) hacc
+    obtain ⟨_, hfold⟩ := fold_owed h s B (fun id p0 h0 => (hok id p0 h0).2.1) txs s
+      (fun tx htx => by obtain ⟨a, ha⟩ := hchk tx htx; exact chkT_of_check P s a tx ha)
+      hgt hnd ho (fun id p0 h0 => ⟨p0, h0⟩) (fun id _ p0 h0 => ⟨p0, h0, rfl, rfl⟩)
+    have hend := sumOwed_endBlock P h (txs.foldl (applyTx h s) s).props
+    simp only [endBlock]
+    omega
+  · cases hb
+
+/-- histories of accepted blocks that respect both guards -/
+inductive ReachableT (P : Params) (stage used0 : Int) : State → Prop
+  | init : used0 ≤ stage → ReachableT P stage used0 ⟨stage, used0, used0, []⟩
+  | block (h : Nat) (s : State) (txs : List Tx) (s' : State) :
+      ReachableT P stage used0 s → (∀ tx ∈ txs, wfTx tx) → Guarded txs → GuardedT txs →
+      applyBlock P h s txs = some s' → ReachableT P stage used0 s'
+
+/-- **Partial**: over all histories of blocks with at most one withdrawal and at most one tracking per proposal, the
+    invariant of `C29_reachable_partial` holds and the counter covers what is owed:
+    `used0 + Σ owed ≤ CRCCommitteeUsedAmount ≤ CRCCurrentStageAmount` — the committee never commits more than its
+    available funds, in terms of the budgets themselves and not only of its own counter. -/
+theorem C29_counter_partial (P : Params) (stage used0 : Int) (s : State) (hr : ReachableT P stage used0 s) :
+    Inv s ∧ used0 + sumOwed s.props ≤ s.used ∧ used0 + sumOwed s.props ≤ s.stage := by
+  have : Inv s ∧ used0 + sumOwed s.props ≤ s.used := by
+    induction hr with
+    | init h0 => exact ⟨⟨(by simp [keys]), fun id p h => (by simp [Deposit.get] at h), h0⟩, by simp [sumOwed]⟩
+    | block h s txs s' _ hwf hg hgt hb ih =>
+      exact ⟨C29_inv_partial P h s txs s' ih.1 hwf hg hb, C29_owed_partial P h s txs s' used0 ih.1 ih.2 hgt hb⟩
+  exact ⟨this.1, this.2, Int.le_trans this.2 this.1.2.2⟩
+
+/-- the excluded point of `GuardedT`: Progress on stage 1 and Terminated in one block — stage 1 (2000 ELA) is
+    both released and made withdrawable, the counter ends 2000 ELA below what is owed. -/
+theorem C29_two_trackings_false :
+    ¬ (∀ (P : Params) (h : Nat) (s : State) (txs : List Tx) (s' : State) (B : Int),
+        Inv s → B + sumOwed s.props ≤ s.used → applyBlock P h s txs = some s' → B + sumOwed s'.props ≤ s'.used) := by
+  intro hfull
+  have hinv : Inv wS := by
+    refine ⟨by decide, ?_, by decide⟩
+    intro id p hp
+    simp only [wS, Deposit.get] at hp
+    split at hp
+    · cases hp
+      refine ⟨by decide, ?_, ?_, by decide⟩
+      · intro b hb; simp [wProp] at hb; rcases hb with rfl | rfl | rfl <;> decide
+      · intro b hb; simp [wProp] at hb; rcases hb with rfl | rfl | rfl <;> decide
+    · cases hp
+  have := hfull wP 10 wS [.track 0 .progress 1, .track 0 .terminated 0] _ 0 hinv (by decide) (by decide : applyBlock wP 10 wS [.track 0 .progress 1, .track 0 .terminated 0] = some (endBlock wP 10 ([Tx.track 0 .progress 1, .track 0 .terminated 0].foldl (applyTx 10 wS) wS)))
+  revert this; decide
+
+/-! ## T-gen: where the guards are enforced and where they are not (regenerated from the source on every run) -/
+
+def slotHas (slot ty fn : String) : Bool :=
+  Gen.C29.slots.any (fun s => s.1 == slot && s.2.any (fun p => p.1 == ty && p.2 == fn))
+
+/-- the transaction pool keeps at most one CRCProposalWithdraw and at most one CRCProposalTracking per proposal hash. -/
+theorem C29_gen_pool_enforces_guards :
+    slotHas "slotCRCProposalHash" "CRCProposalWithdraw" "hashCRCProposalWithdrawProposalHash" = true ∧
+    slotHas "slotCRCProposalTrackingHash" "CRCProposalTracking" "hashCRCProposalTrackingProposalHash" = true ∧
+    slotHas "slotCRCProposalDraftHash" "CRCProposal" "hashCRCProposalDraftHash" = true := by decide
+
+/-- block validation has no per-block rule for withdrawals or trackings, and `checkTxsContext` threads exactly the
+    CRC proposal amount (`RecordCRCProposalAmount`) through its per-transaction `CheckTransactionContext` calls — the
+    running amount of `acceptTxs` / `C29_commit_partial`: blocks are where `Guarded` / `GuardedT` are unenforced
+    (findings C29-two-withdraws-one-block, C29-two-trackings-one-block). -/
+theorem C29_gen_blocks_do_not_enforce_guards :
+    (["CRCProposalWithdraw", "CRCProposalTracking", "CRCProposal", "CRCProposalReview"].all
+      (fun ty => !(Gen.C29.blockDupCases.contains ty))) = true ∧
+    Gen.C29.checkTxsContextCalls.contains "RecordCRCProposalAmount" = true ∧
+    Gen.C29.checkTxsContextCalls.contains "b.CheckTransactionContext" = true := by decide
 
 end ElaVerif.C29
